@@ -247,6 +247,43 @@ WHOLE_C06 = NEAR_KEYWORDS + TAG_LIKE + ADDRESS_LIKE + ["", 'a"b', "a\\", "\\Seen
 WHOLE_C19 = NEAR_KEYWORDS + TAG_LIKE + ["", "a,b", "a, b", "[x]", "x]", "[", "a b", "é,ü", ",", "a,", ",a", "list-id", "a,b,c"]
 
 
+PREFIX_NEGATED = ("notsize", "notenvelope", "notaddress", "notbody", "notcurrentdate")
+
+
+def cond_kind(c):
+    """'header' | 'exists' | 'size' | ... for a condition tuple, whatever the spelling of its negation."""
+    h = c[0]
+    if not isinstance(h, str):
+        return "header"
+    if h in PREFIX_NEGATED or h == "notexists":
+        return h[3:]
+    return h if h in ("exists", "size", "envelope", "address", "body", "currentdate", "true", "false") else "header"
+
+
+def cond_negated(c):
+    h = c[0]
+    if isinstance(h, str) and (h in PREFIX_NEGATED or h == "notexists"):
+        return True
+    return any(isinstance(x, str) and x.startswith(":not") for x in c)
+
+
+def canonical_condition(c):
+    """The spelling get_filter_conditions answers with: negation folded into the match tag for envelope / address / body
+    / currentdate, kept as a name prefix for exists and size."""
+    h = c[0]
+    if isinstance(h, str) and h in PREFIX_NEGATED and h != "notsize":
+        out = [h[3:]]
+        done = False
+        for x in c[1:]:
+            if not done and isinstance(x, str) and x in (":is", ":contains", ":matches", ":regex"):
+                out.append(":not" + x[1:])
+                done = True
+            else:
+                out.append(x)
+        return tuple(out)
+    return c
+
+
 class DefGen:
     """Draws definition structures.  profile: 'c06' | 'c19' | 'benign'."""
 
@@ -308,6 +345,10 @@ class DefGen:
         neg = f.flag(label + ".neg", 1, 3)
         mt = [":is", ":contains", ":matches", ":regex"][f.weighted(label + ".mt", [3, 3, 3, 1])]
         tag = (":not" + mt[1:]) if neg else mt
+        # the other accepted spelling of a negation: "not" in front of the test's name, with the plain tag
+        prefix = neg and p != "benign" and k in ("envelope", "address", "body", "currentdate") and f.flag(label + ".negprefix", 1, 3)
+        if prefix:
+            tag = mt
         if k == "header":
             return (self.value(label + ".h"), tag, self.value(label + ".v"))
         if k == "header-lists":
@@ -315,22 +356,22 @@ class DefGen:
         if k == "exists":
             return (("notexists" if neg else "exists"),) + tuple(self.strlist(label + ".n"))
         if k == "size":
-            lim = ["100k", "1M", "5", 100, "2G"][f.int(label + ".lim", 5)]
-            return ("size", [":over", ":under"][f.int(label + ".ou", 2)], lim)
+            lim = ["100k", "1M", "5", 100, "2G", 0, "0"][f.int(label + ".lim", 7)]
+            return ("notsize" if (neg and p != "benign") else "size", [":over", ":under"][f.int(label + ".ou", 2)], lim)
         if k == "envelope":
-            return ("envelope", tag, self.strlist(label + ".h", 2), self.strlist(label + ".v", 2))
+            return ("notenvelope" if prefix else "envelope", tag, self.strlist(label + ".h", 2), self.strlist(label + ".v", 2))
         if k == "address":
-            return ("address", tag, self.str_or_list(label + ".h"), self.str_or_list(label + ".v"))
+            return ("notaddress" if prefix else "address", tag, self.str_or_list(label + ".h"), self.str_or_list(label + ".v"))
         if k == "body":
             tr = [":raw", ":text"][f.int(label + ".tr", 2)]
-            return ("body", tr, tag) + tuple(self.strlist(label + ".v", 2))
+            return ("notbody" if prefix else "body", tr, tag) + tuple(self.strlist(label + ".v", 2))
         if k == "currentdate":
             zone = ["+0100", "-0330", "+0000"][f.int(label + ".zone", 3)]
             part = ["date", "year", "hour", "weekday"][f.int(label + ".part", 4)]
             if f.flag(label + ".rel", 1, 3):
                 rel = ["gt", "ge", "lt", "le", "eq", "ne"][f.int(label + ".relop", 6)]
                 return ("currentdate", ":zone", zone, ":value", rel, part) + tuple(self.strlist(label + ".v", 2))
-            return ("currentdate", ":zone", zone, tag, part) + tuple(self.strlist(label + ".v", 2))
+            return ("notcurrentdate" if prefix else "currentdate", ":zone", zone, tag, part) + tuple(self.strlist(label + ".v", 2))
         return (["true", "false"][f.int(label + ".tf", 2)],)
 
     # -- actions -------------------------------------------------------------
@@ -407,6 +448,8 @@ class DefGen:
             twin = None
             if isinstance(c[0], str) and c[0] in ("exists", "notexists"):
                 twin = (("notexists" if c[0] == "exists" else "exists"),) + tuple(c[1:])
+            elif isinstance(c[0], str) and c[0] in PREFIX_NEGATED:
+                twin = (c[0][3:],) + tuple(c[1:])
             else:
                 for j, x in enumerate(c):
                     if isinstance(x, str) and x in (":is", ":contains", ":matches", ":notis", ":notcontains", ":notmatches"):
@@ -435,6 +478,10 @@ BAD_DEFS = [
     ([("Subject", ":is", "x")], [("redirect", 5)], "anyof"),
     ([("Subject", ":is", "x")], [("vacation", ":subject", 7, "r")], "anyof"),
     ([("Subject", ":is", "x")], [("reject", "no"), ("fileinto", ":flags", "\\Seen", ":bogus", "F")], "allof"),
+    # an extension tag handed to an action that does not take it
+    ([("Subject", ":is", "x")], [("reject", ":copy", "x")], "anyof"),
+    ([("Subject", ":is", "x")], [("redirect", ":create", "a@b.c")], "anyof"),
+    ([("Subject", ":is", "x")], [("vacation", ":flags", ["\\Seen"], "r")], "anyof"),
 ]
 
 
